@@ -103,6 +103,7 @@ TraceRead ==
   /\ LET w == WindowOf(Rec[l].index) r == Rec[l] IN
        (IF r.i < w.count
          THEN /\ r.res = "ok"
+              /\ r.typed = "same"      \* the typed property builders (Property::as_builder) agree with the generic builder
               /\ LET e == written[inv[w.offset + r.i + 1]] IN
                    r.variant = e.variant /\ r.values = e.values
          ELSE r.res = "none") = TRUE
